@@ -33,6 +33,23 @@ def redeclare(rng, r):
     if not cands:
         return 0
     k = 0
+    # a symbol shared by two ports that are NOT neighbours in name order, another bare symbol in between
+    wide = [n for n in nodes if len([p for p in n["ports"] if p["direction"] in ("input", "through")]) >= 3]
+    if wide and rng.random() < 0.5:
+        n = rng.choice(wide)
+        ps = sorted([p for p in n["ports"] if p["direction"] in ("input", "through")], key=lambda p: p["name"])
+        free = [x for x in H.SIZE_POOL if x not in n["input_params"] and x not in [l[0] for l in n["local_variables"]]]
+        if len(free) >= 2:
+            a, b = rng.sample(free, 2)
+            i, j = sorted(rng.sample(range(len(ps)), 2))
+            if j - i < 2:
+                i, j = 0, len(ps) - 1
+            for q, p in enumerate(ps):
+                if q in (i, j):
+                    p["size"] = E.sym(a)
+                elif i < q < j:
+                    p["size"] = E.sym(b)
+            return 1
     for n, p in rng.sample(cands, min(len(cands), rng.randint(1, 3))):
         kind = rng.choice(["const", "repeat", "compound", "compound"])
         scope = list(n["input_params"]) + [l[0] for l in n["local_variables"]]
